@@ -263,6 +263,8 @@ def fatal_property(scenario, sig):
     if scenario.startswith("c15") and sig != 14:
         # SIGSEGV/SIGBUS on a guard page, SIGFPE from the hardware divide, SIGABRT from a corrupted heap
         return "C15"
+    if scenario.startswith("c11"):
+        return "C11"  # a root call that hangs, overflows the stack or aborts returns no root at all
     if scenario.startswith("c18") and sig == 14:
         return "C18"  # a sampler that never returns although the stream has healed
     return "C14"
@@ -599,6 +601,13 @@ PROPS = {
                 "plans = (iterator kind, value shape, sequence of next/next_back/nth/nth_back/len/size_hint/take/terminal ops) "
                 "drawn from the run PRNG; non-trivial = both ends consumed, or a terminal op after partial consumption; "
                 "distinct = distinct (kind, native length, top-half-zero, op sequence)"),
+            Job("c09iter", "std-release", 200_000, 3_000_000, "same plans in the release harness (len() underflow wraps instead of panicking)"),
+            Job("c09bytes", "std-debug", 400_000, 8_000_000,
+                "plans = 1..6 exchanges: export of a value built by one of 8 routes checked against the byte/word model (minimal base-256, "
+                "shortest two's complement incl. the -2^(8k-1) exception, u32/u64 digits, iterators); library export -> transport padding "
+                "(zero bytes, sign-extension bytes, zero words) -> library import; arbitrary delivered byte strings and u32 word lists "
+                "(all-zero, odd counts, 0x00../0xff.. padding, top byte 0x80) imported by every constructor incl. assign_from_slice into a "
+                "stale live buffer; distinct = distinct (exchange kind, length class, padding/top-byte class, sign, route)"),
         ],
         assumptions=[
             "VecDeque model of an exact-size double-ended iterator",
@@ -623,6 +632,24 @@ PROPS = {
             "RefNat/RefInt order as numerical order",
             "the &mut receiver of a panicked documented-failure operation is re-initialised (Rust promises nothing about it)",
             "the oracle never compares against an arithmetic result: wrong arithmetic with intact canonicalisation raises no C04 alarm",
+        ],
+    ),
+    "C11": dict(
+        level="exploration",
+        jobs=[
+            Job("c11", ["std-debug", "nostd-debug", "std-release", "nostd-release"], 120_000, 3_000_000,
+                "plans = 1..4 root calls: x from a regime swarm (below 2^64, up to 2^1024, beyond 2^1024 (scaled recursive guess), perfect "
+                "powers r^n and r^n+-1, bit length near n, all-ones; up to 6000 bits), degree n from {1,2,3,4,5,7,8,16,31,32,33,64,100,1000,"
+                "bits-1,bits,bits+1,u32::MAX,0}, BigUint/BigInt and sign, and a guess fault injected through the hook: none, no_float (exactly "
+                "the no_std guess), off(+-1,+-2), ulp (relative 2^-50..2^-52), rel (2^-20..2^-52); oracle r^n <= x < (r+1)^n by RefNat, identical "
+                "result with and without the fault, documented panics; the same seeds run in four library builds and the per-run result digests "
+                "must be identical; non-trivial = a guess fault fired or >= 2 fix-point iterations; distinct = distinct (API, regime, degree "
+                "class, fault kind, fault direction, sign)"),
+        ],
+        assumptions=[
+            "RefNat schoolbook power comparison as the floor-root oracle (never the library's own pow)",
+            "guess perturbations are limited to what a platform or configuration could legitimately supply (no arbitrary starts)",
+            "the hook shadows the guess after the cfg(feature=std) / cfg(not(feature=std)) computation; default mode is the identity",
         ],
     ),
     "C14": dict(
